@@ -358,6 +358,9 @@ class TDS(BaseRoutine):
         # only initializing at t<0 allows to continue when `run` is called again.
         if system.dae.t < 0:
             self.init()
+        elif self.initialized and system.dae.t == 0 and system.dae.kcount == 0:
+            # `init()` was called explicitly and no step has been taken: start like a fresh run
+            pass
         else:  # resume simulation
             self.init_resume()
 
